@@ -50,6 +50,8 @@ type c03Input struct {
 	UnrollLevel string `json:"unrollLevel"`
 	Methods []BMethod `json:"methods"`
 	Ops     []C03Op   `json:"ops"`
+	// the interface is generic (`Store[T any]`, T stands where Named is used) and the driver instantiates it
+	Generic bool `json:"generic"`
 }
 
 type c03 struct{}
@@ -72,6 +74,7 @@ func (c03) Generate(c *Ctx) []any {
 		r := c.Rng
 		in := c03Input{Unroll: []string{"unset", "false", "true"}[i%3], UnrollLevel: []string{"top", "package", "interface", "interface-over-package"}[(i/3)%4]}
 		nm := 1 + r.Intn(3)
+		in.Generic = r.Intn(4) == 0
 		for k := 0; k < nm; k++ {
 			m := genBMethod(r, bMethodNames[k])
 			if i%2 == 0 && k == 0 && m.Variadic < 0 {
@@ -303,7 +306,7 @@ func observed(ft *fakeT, f func()) {
 
 func TestDriver(t *testing.T) {
 	ft := &fakeT{}
-	m := NewMockStore(ft)
+	m := NewMockStoreINST(ft)
 `)
 	for k, op := range in.Ops {
 		meth := in.Methods[op.M]
@@ -600,7 +603,11 @@ func (c03) Run(c *Ctx, raw json.RawMessage) Case {
 			break
 		}
 	}
-	out, err := c.behavModule(dir, in.Methods, c03Config(&in), c03Driver(&in))
+	inst := ""
+	if in.Generic {
+		inst = "[Named]"
+	}
+	out, err := c.behavModuleG(dir, in.Methods, in.Generic, c03Config(&in), strings.ReplaceAll(c03Driver(&in), "NewMockStoreINST", "NewMockStore"+inst))
 	if err != nil {
 		return Case{Impl: map[string]any{"error": true}, Oracle: fail("does-not-run", "%v", err), Tags: tags}
 	}
